@@ -2,6 +2,9 @@
 
 Case lines
   1 kind mode p1 p2        kind 1 TSS<int> | 2 TSD<int,TS<int>> | 3 tick TSW<int,period=p1,min_period=p2>
+                           (kinds 1, 2, 4: p1 = 1 selects int32 keys / elements / values instead of int64 - the stable slot
+                            store keeps the slot life cycle in bitmaps for keys aligned below a pointer and in tagged
+                            pointers otherwise; the Coq model is key-type agnostic, the lines are the same)
                                 4 TSD<int,TSS<int>> (nested; no Coq model, oracle only) | 7 TSB{a,b,c:TS<int>} | 8 TSL<TS<int>,3>
                            mode 0: stand-alone TSOutput, observed through TSOutputView
                            mode 1: the collection is the output of a scripted source node of a real graph run by the
@@ -117,7 +120,7 @@ def _gen_fixed(rng, kind, mode, ncyc, t):
 
 def _gen_nested(rng, mode, ncyc, t):
     keys = list(range(1, rng.choice([2, 3, 3, 4]) + 1))
-    case = [[1, 4, mode, 0, 0]]
+    case = [[1, 4, mode, 1 if rng.random() < 0.5 else 0, 0]]
     for _ in range(ncyc):
         ops = []
         for _ in range(rng.choice([0, 1, 1, 2, 3, 4, 5])):
@@ -133,6 +136,43 @@ def _gen_nested(rng, mode, ncyc, t):
                 ops += [4, 0, 0]
         case.append([2, t] + ops)
         t += rng.choice([1, 1, 1, 2, 3])
+    return case
+
+
+def _gen_growth_remove(rng, kind, mode, i32, tier):
+    """the slot table grows (8 -> 16 -> 32) in the SAME cycle in which elements are removed (and others re-added):
+    removed elements must stay removed, live ones live, across the re-allocation of the slot-state tables."""
+    t = rng.randint(1, 3)
+    val = (lambda: rng.randint(1, 9)) if kind == 2 else (lambda: 0)
+    case = [[1, kind, mode, i32, 0]]
+    n0 = rng.randint(4, 8)
+    case.append([2, t] + [x for k in range(1, n0 + 1) for x in (1, k, val())])
+    t += rng.choice([1, 2])
+    nxt = n0 + 1
+    for target in ((16, 32) if rng.random() < 0.4 else (16,)):
+        live = list(range(1, nxt))
+        ops = []
+        for k in rng.sample(live, rng.randint(1, min(4, len(live)))):
+            ops += [2, k, 0]                                # removals BEFORE the growth of this cycle
+        if rng.random() < 0.5:
+            k = rng.choice(live)
+            ops += [2, k, 0, 1, k, val()]                   # and a remove-then-add resurrection
+        grow_by_reserve = rng.random() < 0.3
+        if grow_by_reserve:
+            ops += [4, target, 0]
+        need = target // 2 + 1 + rng.randint(0, 2)
+        while nxt <= need:
+            ops += [1, nxt, val()]
+            nxt += 1
+        for k in rng.sample(live, rng.randint(0, 2)):
+            ops += [2, k, 0]                                # and removals AFTER it
+        case.append([2, t] + ops)
+        t += rng.choice([1, 1, 2])
+        case.append([2, t] + ([] if rng.random() < 0.5 else [1, rng.randint(1, nxt - 1), val()]))
+        t += 1
+    for _ in range(rng.randint(1, 4)):
+        case.append([2, t] + _gen_set_cycle(rng, list(range(1, nxt)), kind, True))
+        t += rng.choice([1, 2])
     return case
 
 
@@ -166,9 +206,12 @@ def gen(rng, tier, prop):
                 case.append([2, t] + rng.choice([[1, 5, 0, 1, 6, 0], [1, 5, 0, 3, 0, 0], [3, 0, 0, 3, 0, 0], [3, 0, 0, 1, 7, 0, 1, 8, 0]]))
             t += rng.choice([1, 1, 1, 2, 5])
         return case
+    i32 = 1 if rng.random() < 0.5 else 0
+    if rng.random() < 0.15:
+        return _gen_growth_remove(rng, kind, mode, i32, tier)
     keys = _keys(rng, tier)
     big = len(keys) > 7
-    case = [[1, kind, mode, 0, 0]]
+    case = [[1, kind, mode, i32, 0]]
     for _ in range(ncyc):
         rr = rng.random()
         if rr < 0.12:
@@ -194,7 +237,8 @@ def enumerate_cases(prop):
                     for i, (code, k) in enumerate((a, b, c)):
                         ops += [code, k, (i + 3) if (kind == 2 and code == 1) else 0]
                     for mode in (0, 1):
-                        out.append([[1, kind, mode, 0, 0], [2, 1, 1, 1, 1 if kind == 2 else 0], [2, 2] + ops, [2, 3], [2, 4, 1, 2, 9 if kind == 2 else 0]])
+                        i32 = (len(out) // 2) % 2
+                        out.append([[1, kind, mode, i32, 0], [2, 1, 1, 1, 1 if kind == 2 else 0], [2, 2] + ops, [2, 3], [2, 4, 1, 2, 9 if kind == 2 else 0]])
     for n in range(1, 6):
         for m in range(0, n + 1):
             case = [[1, 3, 0, n, m]]
@@ -709,6 +753,28 @@ def _events(case):
     return kind, ev
 
 
+def _growth_removal(kind, cycles):
+    """cycles in which the number of constructed slots crosses a capacity boundary (8, 16) while the same cycle removes"""
+    if kind not in (1, 2):
+        return 0
+    n = 0
+    live = set()
+    for _t, ops in cycles:
+        before = len(live)
+        removed = set()
+        for (c, a, _v) in ops:
+            if c == 1:
+                live.add(a); removed.discard(a)
+            elif c == 2 and a in live:
+                live.discard(a); removed.add(a)
+            elif c == 3:
+                removed |= live; live = set()
+        after = len(live) + len(removed)
+        if removed and any(before <= b < after for b in (8, 16)):
+            n += 1
+    return n
+
+
 def nontrivial(case, out):
     if not isinstance(out, list):
         return False
@@ -725,6 +791,7 @@ def stats(case, out):
     kind, ev = _events(case)
     d = {"cases_tss": int(kind == 1), "cases_tsd": int(kind == 2), "cases_tsw": int(kind == 3), "cases_nested_tsd_tss": int(kind == 4),
          "cases_tsb": int(kind == 7), "cases_tsl": int(kind == 8), "cases_graph_mode": int(hdr[1] == 1),
+         "cases_int32_keys": int(kind in (1, 2, 4) and hdr[2] == 1), "growth_with_removal_cycles": _growth_removal(kind, cycles),
          "cycles": len(cycles), "mutations": sum(len(o) for _, o in cycles)}
     d.update(ev)
     if isinstance(out, list):
